@@ -491,6 +491,9 @@ func cmdCheck(args []string) int {
 	}
 	// obligations that used to be proved but are no longer generated
 	for name := range expected {
+		if onlyFilter != "" {
+			break
+		}
 		if seen[name] || strings.HasSuffix(name, "/cover:exit-reachable") {
 			continue
 		}
